@@ -1,7 +1,7 @@
 __all__ = ["desugar_assignment"]
 
 from collections.abc import Iterator
-from functools import singledispatch
+from functools import reduce, singledispatch
 from itertools import count
 
 from ..expression import ast as sugar
@@ -39,6 +39,70 @@ def desugar_tensor(
     return output
 
 
+def carried_by_every_term(self: sugar.Expression, index: str) -> bool:
+    """Whether every additive term of the expanded (sum of products) expression has the index.
+
+    A contraction can be hoisted over an expression only if this is true. Otherwise, the terms
+    that do not have the index would be summed over it anyway.
+    """
+    match self:
+        case sugar.Tensor():
+            return index in self.indexes
+        case sugar.Add() | sugar.Subtract():
+            return carried_by_every_term(self.left, index) and carried_by_every_term(
+                self.right, index
+            )
+        case sugar.Multiply():
+            return carried_by_every_term(self.left, index) or carried_by_every_term(
+                self.right, index
+            )
+        case _:
+            return False
+
+
+def additive_terms(self: sugar.Expression) -> list[tuple[bool, list[sugar.Expression]]]:
+    """Expand an expression into a sum of products.
+
+    Each term is a pair of whether the term is negated and the list of its factors.
+    """
+    match self:
+        case sugar.Add():
+            return additive_terms(self.left) + additive_terms(self.right)
+        case sugar.Subtract():
+            return additive_terms(self.left) + [
+                (not negative, factors) for negative, factors in additive_terms(self.right)
+            ]
+        case sugar.Multiply():
+            return [
+                (left_negative != right_negative, left_factors + right_factors)
+                for left_negative, left_factors in additive_terms(self.left)
+                for right_negative, right_factors in additive_terms(self.right)
+            ]
+        case _:
+            return [(False, [self])]
+
+
+def desugar_distributed(
+    self: sugar.Expression, contract_indexes: set[str], ids: Iterator[int]
+) -> desugar.Expression:
+    """Desugar the sum-of-products expansion of an expression.
+
+    Each term is contracted over exactly those contract indexes that it has.
+    """
+    output = None
+    for negative, factors in additive_terms(self):
+        term = reduce(
+            desugar.Multiply, [desugar_expression(factor, set(), ids) for factor in factors]
+        )
+        term_indexes = set().union(*(factor.index_participants().keys() for factor in factors))
+        for index in term_indexes.intersection(contract_indexes):
+            term = desugar.Contract(index, term)
+        if negative:
+            term = desugar.Multiply(desugar.Integer(-1), term)
+        output = term if output is None else desugar.Add(output, term)
+    return output
+
+
 @desugar_expression.register(sugar.Add)
 def desugar_add(
     self: sugar.Add, contract_indexes: set[str], ids: Iterator[int]
@@ -46,7 +110,12 @@ def desugar_add(
     left_indexes = set(self.left.index_participants().keys()).intersection(contract_indexes)
     right_indexes = set(self.right.index_participants().keys()).intersection(contract_indexes)
 
-    intersection_indexes = left_indexes.intersection(right_indexes)
+    # Only hoist a contraction out of the sum if every term of both sides has the index
+    intersection_indexes = {
+        index
+        for index in left_indexes.intersection(right_indexes)
+        if carried_by_every_term(self.left, index) and carried_by_every_term(self.right, index)
+    }
 
     output = desugar.Add(
         desugar_expression(self.left, left_indexes - intersection_indexes, ids),
@@ -66,7 +135,12 @@ def desugar_subtract(
     left_indexes = set(self.left.index_participants().keys()).intersection(contract_indexes)
     right_indexes = set(self.right.index_participants().keys()).intersection(contract_indexes)
 
-    intersection_indexes = left_indexes.intersection(right_indexes)
+    # Only hoist a contraction out of the sum if every term of both sides has the index
+    intersection_indexes = {
+        index
+        for index in left_indexes.intersection(right_indexes)
+        if carried_by_every_term(self.left, index) and carried_by_every_term(self.right, index)
+    }
 
     output = desugar.Add(
         desugar_expression(self.left, left_indexes - intersection_indexes, ids),
@@ -90,6 +164,14 @@ def desugar_multiply(
     right_indexes = set(self.right.index_participants().keys()).intersection(contract_indexes)
 
     intersection_indexes = left_indexes.intersection(right_indexes)
+
+    if not all(
+        carried_by_every_term(self.left, index) or carried_by_every_term(self.right, index)
+        for index in intersection_indexes
+    ):
+        # Some term of each factor lacks a shared contraction index, so there is no single place
+        # in this product to put that contraction. Distribute the product first.
+        return desugar_distributed(self, contract_indexes, ids)
 
     output = desugar.Multiply(
         desugar_expression(self.left, left_indexes - intersection_indexes, ids),
